@@ -125,4 +125,32 @@ theorem ctor_validate_conds_src : ctor_validate_conds = ctor_validate_conds_expe
 def custom_cache_conds_expected : String := "!ok | item.updTime.Before(c.UpdateTime)"
 theorem custom_cache_conds_src : custom_cache_conds = custom_cache_conds_expected := rfl
 
+/-- Letter case: `parseRespAnswer` hands the rule lists the *normalised* CNAME target (`Agd.Filter.ansOf`, `normName`; after the `fix:` commit), addresses in `netip`/`net.IP` rendering; the question name is normalised by the same function (`Agd.Driver.C02.host!`). -/
+def resp_answer_returns_expected : String := "ans.A.String(), dns.TypeA, true | ans.AAAA.String(), dns.TypeAAAA, true | agdnet.NormalizeDomain(ans.Target), dns.TypeCNAME, true | \"\", dns.TypeNone, false"
+theorem resp_answer_returns_src : resp_answer_returns = resp_answer_returns_expected := rfl
+def normalize_domain_expected : String := "strings.ToLower(strings.TrimSuffix(fqdn, \".\"))"
+theorem normalize_domain_src : normalize_domain = normalize_domain_expected := rfl
+def req_host_normalized_expected : String := "agdnet.NormalizeDomain(q.Name)"
+theorem req_host_normalized_src : req_host_normalized = req_host_normalized_expected := rfl
+/-- The TTL of every synthesised record is the whole seconds of the configured duration (`Agd.Filter.durSecs`). -/
+def record_ttl_whole_seconds_expected : String := "dns.RR_Header{ Name: fqdn, Rrtype: rrType, Ttl: uint32(c.fltRespTTL.Seconds()), Class: uint16(cl), }"
+theorem record_ttl_whole_seconds_src : record_ttl_whole_seconds = record_ttl_whole_seconds_expected := rfl
+/-- Every message the constructor builds starts as a fresh reply to the request: no answer, authority or additional records (`Msg.upExtra = 0` for all synthesised messages); a blocked-rcode response is such a message plus the EDE option. -/
+def new_resp_fresh_expected : String := "(&dns.Msg{ MsgHdr: dns.MsgHdr{ RecursionAvailable: true, }, Compress: true, }).SetReply(req)"
+theorem new_resp_fresh_src : new_resp_fresh = new_resp_fresh_expected := rfl
+def blocked_rcode_resp_calls_expected : String := "NewResp,AddEDE"
+theorem blocked_rcode_resp_calls_src : blocked_rcode_resp_calls = blocked_rcode_resp_calls_expected := rfl
+
+/-- Debug (CHAOS-class) queries: the class is reset before filtering, the body of the answer is the filtered response, and the reported verdict is the request's unless there is none (`Agd.Filter.serveDebug`, `reportedVerdict`). -/
+def debug_body_expected : String := "fctx.filteredResponse"
+theorem debug_body_src : debug_body = debug_body_expected := rfl
+def debug_conds_expected : String := "err != nil | err != nil | err != nil | fctx.requestResult == nil | err != nil"
+theorem debug_conds_src : debug_conds = debug_conds_expected := rfl
+def debug_class_reset_expected : String := "isDebug"
+theorem debug_class_reset_src : debug_class_reset = debug_class_reset_expected := rfl
+def debug_is_chaos_expected : String := "req.Question[0].Qclass == dns.ClassCHAOS"
+theorem debug_is_chaos_src : debug_is_chaos = debug_is_chaos_expected := rfl
+def filtering_data_cond_expected : String := "fctx.requestResult != nil"
+theorem filtering_data_cond_src : filtering_data_cond = filtering_data_cond_expected := rfl
+
 end Agd.Tie.C02
